@@ -383,9 +383,10 @@ def unionClassStmts (cur : Name) (d : DataType) : List Stmt :=
       none,
     .assign (c ++ "_validator") none none [here c] ]
 
-/-- `_generate_alias_definition` (note: `alias.name` is used as it is, references to it go through `fmt_class`) -/
+/-- `_generate_alias_definition` (note: the class alias is bound under `alias.name` as it is, references to it go
+through `fmt_class`; the validator is bound under `fmt_class(alias.name) + '_validator'`) -/
 def aliasStmts (api : Api) (cur : Name) (a : Alias) : List Stmt :=
-  let v := a.name ++ "_validator"
+  let v := fmtClass a.name ++ "_validator"
   -- a bare user type / alias: the validator expression is just the other validator's name
   let copy : Option Ref := match a.ty with
     | .user ns n => some (qual cur ns (fmtClass n ++ "_validator"))
@@ -698,7 +699,7 @@ for every type and alias, a route object per route version named by `fmt_func(na
 def expectedGlobals (ns : Namespace) : List Name :=
   ns.types.map (fmtClass ·.name)
   ++ ns.types.map (fun d => fmtClass d.name ++ "_validator")
-  ++ ns.aliases.map (fun a => a.name ++ "_validator")
+  ++ ns.aliases.map (fun a => fmtClass a.name ++ "_validator")
   ++ ns.routes.map (fun r => fmtFunc r.name false r.version)
   ++ ["ROUTES"]
 
@@ -777,7 +778,7 @@ def bindNames (api : Api) (ns : Namespace) : List Name :=
   ns.imports.map fmtNamespace
   ++ ns.annTypes.map (fmtClass ·.name)
   ++ ns.types.flatMap (fun d => [fmtClass d.name, fmtClass d.name ++ "_validator"])
-  ++ ns.aliases.flatMap (fun a => (a.name ++ "_validator") ::
+  ++ ns.aliases.flatMap (fun a => (fmtClass a.name ++ "_validator") ::
         (if aliasEndsInUser api api.nAliases a.ty then [a.name] else []))
   ++ ns.routes.map (fun r => fmtFunc r.name false r.version)
   ++ ["ROUTES"]
@@ -813,8 +814,8 @@ def typeWF (api : Api) (ns : Namespace) (earlier : List DataType) (d : DataType)
 
 def aliasWF (api : Api) (ns : Namespace) (earlier : List Alias) (a : Alias) : Bool :=
   tyOK api ns a.ty
-  -- `alias.name` is what references to it are spelled like
-  && fmtClass a.name == a.name
+  -- the class alias is bound under `alias.name` but referred to as `fmt_class(alias.name)`
+  && (!aliasEndsInUser api api.nAliases a.ty || fmtClass a.name == a.name)
   -- every alias of this namespace mentioned AT ANY DEPTH precedes (`linearize_aliases`)
   && (a.ty.localAliases ns.name).all (fun n => earlier.any (·.name == n))
 
